@@ -19,18 +19,26 @@ import tla
 import vcheck
 
 OPT_CLASSES = {
-    "name": ["absent", "plain", "special"], "mode": ["absent", "recursive", "direct", "garbage"],
-    "rmin": ["absent", "two", "neg", "garbage", "float"], "rmax": ["absent", "three", "neg", "garbage"],
-    "repl": ["absent", "one", "garbage"], "shard": ["absent", "k1024", "garbage", "negative"],
-    "ualloc": ["absent", "one", "two", "garbage", "mixed"],
-    "expire": ["absent", "at", "in1h", "atgarbage", "inshort", "ingarbage"], "meta": ["absent", "one", "two"],
-    "update": ["absent", "v0", "garbage"], "origins": ["absent", "one", "two", "nopeer", "garbage"],
+    "name": ["absent", "plain", "special", "ws"], "mode": ["absent", "recursive", "direct", "garbage", "upper"],
+    "rmin": ["absent", "two", "neg", "zero", "plus", "negtwo", "garbage", "float", "spacey", "huge"],
+    "rmax": ["absent", "three", "neg", "zero", "garbage", "huge"], "repl": ["absent", "one", "neg", "zero", "garbage"],
+    "shard": ["absent", "k1024", "zero", "big", "garbage", "negative", "float", "plus"],
+    "ualloc": ["absent", "one", "two", "qm", "dup", "garbage", "mixed", "spaced"],
+    "expire": ["absent", "at", "atfrac", "atpast", "in1h", "in90m", "in1s", "atgarbage", "atdate", "inshort", "ingarbage",
+               "inneg", "innounit"],
+    "meta": ["absent", "one", "two", "prefixy", "special", "emptykey"], "update": ["absent", "v0", "v1", "garbage"],
+    "origins": ["absent", "one", "two", "onlyp2p", "nopeer", "garbage", "spaced"],
 }
-LENIENT = {"mode": {"garbage"}, "ualloc": {"garbage", "mixed"}}
-REFUSED = {"rmin": {"garbage", "float"}, "rmax": {"garbage"}, "repl": {"garbage"}, "shard": {"garbage", "negative"},
-           "expire": {"atgarbage", "inshort", "ingarbage"}, "update": {"garbage"}, "origins": {"nopeer", "garbage"}}
-POS_INVALID = {"garbage", "trunc", "badcid", "badcidsub", "badjson", "wrongfield", "badpeer", "empty", "wrongtype",
-               "notmultipart"}
+# undecodable values accepted as coded (spec: OptLenient, LocalLenient, FilterLenient)
+LENIENT = {"mode": {"garbage", "upper"}, "ualloc": {"garbage", "mixed", "spaced"},
+           "local": {"upper", "one", "garbage"}, "filter": {"mixed"}}
+REFUSED = {"rmin": {"garbage", "float", "spacey", "huge"}, "rmax": {"garbage", "huge"}, "repl": {"garbage"},
+           "shard": {"garbage", "negative", "float", "plus"},
+           "expire": {"atgarbage", "atdate", "inshort", "ingarbage", "inneg", "innounit"}, "update": {"garbage"},
+           "origins": {"nopeer", "garbage", "spaced"}}
+POS_INVALID = {"cid": {"garbage", "trunc", "v1trunc", "space"}, "path": {"badcid", "badcidsub"}, "peer": {"garbage", "trunc"},
+               "body": {"badjson", "wrongfield", "badpeer", "empty", "wrongtype", "array", "null", "notmultipart"},
+               "filter": {"invalid", "undefined"}}
 
 
 def gen_cases(ctx, rng):
@@ -61,14 +69,15 @@ def gen_cases(ctx, rng):
                 good = [c for c in cl if c not in bad]
                 q["o"][n] = rng.choice(good) if rng.random() < 0.93 else rng.choice(cl)
             if q["pat"] == "pins_hash":
-                q["cid"] = rng.choice(["v0", "v1", "v0", "v1", "garbage"])
+                q["cid"] = rng.choice(["v0", "v1", "v1b58", "v0", "v1", "garbage", "v1trunc"])
             if q["pat"] == "pins_path":
                 q["path"] = rng.choice(["ipfs", "ipfssub", "ipns", "ipnssub", "ipld", "space", "qmark", "hash", "pct",
-                                        "unicode", "badcid"])
+                                        "unicode", "plus", "amp", "badcid"])
             reqs.append(q)
     rng.shuffle(reqs)
     for i, q in enumerate(reqs):
         q["id"] = i + 1
+        q["nt"] = bool(q["via"] == "client" or q["cfg"] == "auth" or bad_components(q))
     inp = os.path.join(ctx.work, "c11_cases.ndjson")
     with open(inp, "w") as f:
         for q in reqs:
@@ -128,11 +137,12 @@ def replay(ctx, path):
 def bad_components(req):
     """The malformed components of a request, as stable short names."""
     out = []
-    for k in ("cid", "path", "peer", "body"):
-        if req.get(k) in POS_INVALID:
+    for k in ("cid", "path", "peer", "body", "filter"):
+        if req.get(k) in POS_INVALID[k]:
             out.append("%s=%s" % (k, req[k]))
-    if req.get("filter") == "invalid":
-        out.append("filter=invalid")
+    for k in ("local", "filter"):
+        if req.get(k) in LENIENT[k]:
+            out.append("%s=%s" % (k, req[k]))
     shadow = req["o"].get("repl") != "absent"
     for n in sorted(req["o"]):
         c = req["o"][n]
@@ -155,10 +165,10 @@ def key_http(rec, broken, conforms):
     lenient_only = live and all(b.split("=")[0] in LENIENT and b.split("=")[1] in LENIENT[b.split("=")[0]] for b in live)
     if broken == ["FailClosed"] and lenient_only and conforms:
         # an undecodable value was replaced by a default and the operation performed
-        return "C11:accepted-undecodable:%s" % ",".join(sorted(set(b.split("=")[0] for b in live)))
+        return ["C11:accepted-undecodable:%s" % n for n in sorted(set(b.split("=")[0] for b in live))]
     obs = rec["obs"]
     if obs["status"] == 400 and obs["docs"] == 2 and len(obs["ops"]) == 1 and live and \
-            all(b.split("=")[0] in OPT_CLASSES for b in live):
+            all(b.split("=")[0] in OPT_CLASSES and b.split("=")[0] not in LENIENT for b in live):
         # the signature of a handler that answers 400 for an option and carries on
         return "C11:400-then-performed:%s" % route_name(req)
     if "AuthFirst" in broken:
@@ -212,10 +222,11 @@ def validate(ctx, trace):
         rec["expected_as_coded"] = w.get("exp")
         rec["broken"] = broken
         obs = rec["obs"]
-        ctx.violation(key_http(rec, broken, i not in drift),
-                      "%s breaks %s: status %s, %d JSON document(s), operations performed: %s" % (
-                          rec.get("url", ""), "+".join(broken), obs["status"], obs["docs"],
-                          [o["svc"] + "." + o["m"] for o in obs["ops"]]), rec)
+        keys = key_http(rec, broken, i not in drift)
+        for key in (keys if isinstance(keys, list) else [keys]):
+            ctx.violation(key, "%s breaks %s: status %s, %d JSON document(s), operations performed: %s" % (
+                rec.get("url", ""), "+".join(broken), obs["status"], obs["docs"],
+                [o["svc"] + "." + o["m"] for o in obs["ops"]]), rec)
     for i in sorted(cbad):
         rec = recs[i - 1]
         rec["_expops"] = cwhy.get(i, {}).get("expops")
